@@ -5,6 +5,8 @@
 //!    runs `darklua_core::process` on memory resources (`src/main.lua`, `.darklua.json`) and prints
 //!        {"id": n, "ok": true, "out": "<generated text>", "trace": [event...]}
 //!        {"id": n, "ok": false, "err": "<message>", "panic": bool}
+//!    With "inplace": true there is no output path: the file is processed in place and the answer carries
+//!    "after", the content of `src/main.lua` afterwards (also when darklua reports an error).
 //!    With "trace": true the write requests received by the token-based generator during that
 //!    very run are recorded through `verif_hooks::token_trace`:
 //!        {"t":"tok","p":POS,"l":[[is_comment,POS]...],"r":[[is_comment,POS]...],"sc":bool}
@@ -20,6 +22,27 @@ use darklua_core::verif_hooks::token_trace::{self, Event, Pos, TracedTrivia};
 use darklua_core::{Options, Resources};
 use hutil::hex;
 use serde_json::{json, Value};
+
+/// in place: no output path, the processed text replaces `src/main.lua`; returns (result, content of the file afterwards)
+fn run_in_place(config: &str, src: &str) -> (Result<(), String>, Option<String>) {
+    let resources = Resources::from_memory();
+    if resources.write("src/main.lua", src).is_err() || resources.write(".darklua.json", config).is_err() {
+        return (Err("write".to_owned()), None);
+    }
+    let options = Options::new("src/main.lua").with_configuration_at(".darklua.json");
+    let result = darklua_core::process(&resources, options)
+        .map_err(|e| e.to_string())
+        .and_then(|tree| {
+            tree.result().map_err(|errors| {
+                errors
+                    .iter()
+                    .map(|e| e.to_string())
+                    .collect::<Vec<_>>()
+                    .join(" | ")
+            })
+        });
+    (result, resources.get("src/main.lua").ok())
+}
 
 fn run_one(config: &str, src: &str) -> Result<String, String> {
     let resources = Resources::from_memory();
@@ -98,6 +121,17 @@ fn main() {
                 let config = case["config"].as_str().unwrap_or("{}").to_owned();
                 let src = case["src"].as_str().unwrap_or("").to_owned();
                 let trace = case["trace"].as_bool().unwrap_or(false);
+                if case["inplace"].as_bool().unwrap_or(false) {
+                    // {"inplace": true}: process the file in place and report its content afterwards
+                    let result = catch_unwind(AssertUnwindSafe(|| run_in_place(&config, &src)));
+                    let answer = match result {
+                        Ok((Ok(()), after)) => json!({"id": id, "ok": true, "out": after.clone(), "after": after}),
+                        Ok((Err(err), after)) => json!({"id": id, "ok": false, "err": err, "panic": false, "after": after}),
+                        Err(_) => json!({"id": id, "ok": false, "err": "panic", "panic": true}),
+                    };
+                    writeln!(out, "{}", answer).unwrap();
+                    continue;
+                }
                 if trace {
                     token_trace::start();
                 }
